@@ -240,12 +240,19 @@ def main(argv=None):
     for r in gresults:
         # a finite (ground) obligation set counts as ONE obligation, discharged iff every
         # enumerated instance held; the instance counts stay inside the 'ground' block
-        n_obl += 1
         unknown = [f for f in r.get('failures', [])
                    if not any(kf.get('check') == r['id'] and kf.get('status') == 'known' and kf.get('key') == f.get('key')
                               for kf in known)]
         r['known_findings_excluded'] = [f.get('key') for f in r.get('failures', []) if f not in unknown]
-        n_dis += 1 if (not unknown and r.get('status') != 'error' and r.get('obligations', 0) > 0) else 0
+        if r.get('count_each'):
+            # each instance is an obligation of its own (e.g. one per store statement of a frame contract);
+            # instances listed as known findings are excluded from both counts and listed separately
+            nk = len(r['known_findings_excluded'])
+            n_obl += max(r.get('obligations', 0) - nk, 0)
+            n_dis += max(r.get('obligations', 0) - nk - len(unknown), 0) if r.get('status') != 'error' else 0
+        else:
+            n_obl += 1
+            n_dis += 1 if (not unknown and r.get('status') != 'error' and r.get('obligations', 0) > 0) else 0
     if errors and exit_code == 0:
         exit_code = 3
     elif undecided and exit_code == 0:
